@@ -208,7 +208,7 @@ func (t *Topo) eval(p *big.Int, vals [][]string) [][]*big.Int {
 // validate checks the structural invariants the generator guarantees (used on replay input).
 func (t *Topo) validate() error {
 	tab := gateTable()
-	if t.LogN < 0 || t.LogN > 6 || len(t.Wires) == 0 || len(t.Vals) != len(t.Wires) {
+	if t.LogN < 0 || t.LogN > 12 || len(t.Wires) == 0 || len(t.Vals) != len(t.Wires) {
 		return fmt.Errorf("bad shape")
 	}
 	nGates := 0
